@@ -304,6 +304,40 @@ def classify_error(exc):
     return 'other:%s:%s' % (type(exc).__name__, msg[:80])
 
 
+def unclassified(verdict):
+    """a rejection whose message matches none of ERR_PATTERNS"""
+    return verdict.startswith('other:')
+
+
+def verdicts_agree(impl, model):
+    """accept / reject must agree exactly.  The rejection CLASS is compared
+    only when the implementation's message is recognised: the property says a
+    malformed tree is rejected, not with which words.  An unrecognised
+    RuntimeError (the exception type the package raises deliberately) agrees
+    with any rejection class of the model; other exception types do not."""
+    if impl == 'ok' or model == 'ok':
+        return impl == model
+    if impl == model:
+        return True
+    return impl.startswith('other:RuntimeError:')
+
+
+def rel(tree):
+    """a tree dict as a RELATION: level dicts sorted by node, child / row
+    lists sorted — C10 constrains the tree as a relation, never the order of
+    a child list"""
+    out = {}
+    for k, v in tree.items():
+        if k in IGNORABLE:
+            continue
+        if isinstance(v, dict):
+            out[k] = {n: sorted(c, key=_skey) if isinstance(c, (list, tuple, set))
+                      else c for n, c in sorted(v.items(), key=lambda kv: _skey(kv[0]))}
+        else:
+            out[k] = list(v) if isinstance(v, (list, tuple)) else v
+    return out
+
+
 def impl_validate(tree):
     from cell_type_mapper.taxonomy.utils import validate_taxonomy_tree
     with warnings.catch_warnings():
